@@ -406,14 +406,44 @@ Definition compact_ok (c : compact_case) : bool :=
                      | _ => true
                      end) (cc_writes c).
 
+(* ---------- one conditional write sent through a follower's etcd proxy whose link to the leader loses the
+   reply after the leader executed the request (nobody else touches the key) ---------- *)
+
+Record proxy_case := {
+  px_d0 : N;
+  px_init : kstate;      (* key 0 before *)
+  px_req : req;
+  px_resp : resp;        (* what the follower answered; RespError = the outcome is unknown to the client *)
+  px_final : kstate      (* key 0 after *)
+}.
+
+Definition is_error (r : resp) : bool := match r with RespError => true | _ => false end.
+
+(* the leader executes the request once; the client is told the outcome or that it is unknown *)
+Definition proxy_check (c : proxy_case) : bool :=
+  let '(s1, _, resps) := run_to_response true 8 (kinit (px_d0 c) (fun k => if k =? 0 then px_init c else k_empty)) [px_req c] in
+  kstate_eqb (kv s1 0) (px_final c)
+  && (is_error (px_resp c) || list_eqb resp_eqb resps [px_resp c]).
+
+(* a failed condition is reported only if the key really differed from the expectation, and then nothing was written *)
+Definition proxy_ok (c : proxy_case) : bool :=
+  if resp_cond_failed (px_resp c)
+  then differs (px_init c) (px_req c) && kstate_eqb (px_init c) (px_final c)
+  else true.
+
 Inductive c01_case :=
 | C1Sched (c : sched_case)
-| C1Compact (c : compact_case).
+| C1Compact (c : compact_case)
+| C1Proxy (c : proxy_case).
 
 Definition c01_check (c : c01_case) : bool :=
-  match c with C1Sched c => sched_check c | C1Compact c => compact_check c end.
+  match c with C1Sched c => sched_check c | C1Compact c => compact_check c | C1Proxy c => proxy_check c end.
 Definition c01_oracle (c : c01_case) : option N :=
-  match c with C1Sched c => sched_c01_oracle c | C1Compact c => ok_if (compact_ok c) end.
+  match c with
+  | C1Sched c => sched_c01_oracle c
+  | C1Compact c => ok_if (compact_ok c)
+  | C1Proxy c => ok_if (proxy_ok c)
+  end.
 
 (* ---------- validity of a case (what the generator guarantees) ---------- *)
 
